@@ -21,6 +21,8 @@ pub struct Mix {
     /// W7c setup + cycler from the first play position
     pub w7c: (u64, u64),
     pub w7: (u64, u64),
+    /// W4c barely mobile movers, one turn each (games quick, games thorough), not multiplied
+    pub w4c: (u64, u64),
     pub max_turns: u32,
     pub long_w3: (u64, u64), // extra W3 games with 2000-turn cap
     pub text_per_mille: u32,
@@ -33,7 +35,7 @@ pub struct Mix {
 }
 impl Default for Mix {
     fn default() -> Self {
-        Mix { w1: (0, 0), w2: (0, 0), w3: (0, 0), w5: (0, 0), w5b: (0, 0), w5c: (0, 0), w5d: (0, 0), w7c: (0, 0), w7: (0, 0), max_turns: 200, long_w3: (0, 0), text_per_mille: 20, tree_per_mille: 0, sweep2: false, sweep3: (0, 0), sweep_depth: 2, sweep4_thorough: false }
+        Mix { w1: (0, 0), w2: (0, 0), w3: (0, 0), w5: (0, 0), w5b: (0, 0), w5c: (0, 0), w5d: (0, 0), w7c: (0, 0), w7: (0, 0), w4c: (0, 0), max_turns: 200, long_w3: (0, 0), text_per_mille: 20, tree_per_mille: 0, sweep2: false, sweep3: (0, 0), sweep_depth: 2, sweep4_thorough: false }
     }
 }
 
@@ -59,6 +61,9 @@ pub fn run_mix(cfg: &Cfg, mix: &Mix, make: &(dyn Fn() -> Box<dyn Monitor> + Sync
         }
         if mix.w5d.1 > 0 {
             play_takebacks(cfg.n(mix.w5d.0, mix.w5d.1), cfg.seed, w, m, sink);
+        }
+        if mix.w4c.1 > 0 {
+            play_barely_mobile(cfg.n(mix.w4c.0, mix.w4c.1), cfg.seed, w, m, sink);
         }
         if mix.w7c.1 > 0 {
             play_setup_cyclers(cfg.n(mix.w7c.0, mix.w7c.1), cfg.seed, w, m, sink);
@@ -197,9 +202,9 @@ pub fn c06(cfg: &Cfg) -> i32 {
 }
 
 pub fn c07(cfg: &Cfg) -> i32 {
-    let mix = Mix { w1: (300, 8000), w2: (200, 5000), w3: (2000, 50000), w5: (800, 20000), w5b: (300, 8000), w5c: (4, 100), w5d: (150, 3000), w7c: (20, 400), w7: (40, 800), ..Mix::default() };
+    let mix = Mix { w1: (300, 8000), w2: (200, 5000), w3: (2000, 50000), w5: (800, 20000), w5b: (300, 8000), w5c: (4, 100), w5d: (150, 3000), w7c: (20, 400), w7: (40, 800), w4c: (20_000, 1_000_000), ..Mix::default() };
     let sink = run_mix(cfg, &mix, &|| Box::new(C07::default()));
-    let floors = vec![floor("states_judged", 300_000, 3_000_000), floor("dead_end_pending_push_all_completions_withheld", 20, 400), floor("states_can_pass_true_ne_false", 10_000, 100_000), floor("setup_states_judged", 10_000, 100_000), floor("dead_end_every_turn_ender_withheld", 150, 4000), floor("saturated_scripts_only_pull_left", 2000, 50_000), floor("saturated_scripts_dead_end", 500, 12_000), floor("saturated_scripts_dead_end_beside_pushable_enemy", 200, 5_000), floor("dead_end_with_a_pull_among_the_withheld", 500, 12_000), floor("dead_end_pending_push_completion_is_third_repetition", 500, 12_000)];
+    let floors = vec![floor("states_judged", 300_000, 3_000_000), floor("barely_mobile_positions_played", 50_000, 2_000_000), floor("dead_end_pending_push_all_completions_withheld", 20, 400), floor("states_can_pass_true_ne_false", 10_000, 100_000), floor("setup_states_judged", 10_000, 100_000), floor("dead_end_every_turn_ender_withheld", 150, 4000), floor("saturated_scripts_only_pull_left", 2000, 50_000), floor("saturated_scripts_dead_end", 500, 12_000), floor("saturated_scripts_dead_end_beside_pushable_enemy", 200, 5_000), floor("dead_end_with_a_pull_among_the_withheld", 500, 12_000), floor("dead_end_pending_push_completion_is_third_repetition", 500, 12_000)];
     conclude(cfg, sink, base_report("states_judged", "W3/W5 repetition-heavy games and W5b saturated-neighbourhood scripts (a lone mobile piece visits a square and all its neighbours twice, then returns: at step 3 the pass and every own step are withheld, leaving either nothing or only a pull), W1/W2/W7 games; at every setup and play state is_terminal, valid_actions, valid_actions_no_rep, can_pass(true/false) and has_move are cross-checked. distinct_nontrivial = distinct mid-turn dead ends plus distinct states where can_pass(true) != can_pass(false).", floors))
 }
 
